@@ -2,6 +2,8 @@ SPECIFICATION Spec
 CONSTANTS
   Dev = {}
   NSamp = 2
+  MaxLen = 2
+  WithSnp = TRUE
   EmitReplay = TRUE
-INVARIANTS EntriesAreSites Traversal
+INVARIANTS Traversal
 CHECK_DEADLOCK FALSE
